@@ -14,7 +14,6 @@ Usage: refsolver.py [--log FILE] [--delay-ms N] [--mode MODE] [--name NAME]
 MODE: ok | unknown | error | crash | exit | hang | garbage | slowstart
 """
 import argparse
-import itertools
 import json
 import os
 import sys
@@ -214,25 +213,14 @@ class Solver(object):
                 raise ValueError('functions are outside the reference '
                                  'solver')
         doms = [self.domain(t, usyms) for (_, t) in syms]
-        for combo in itertools.product(*doms):
-            I = dict((s[0], v) for s, v in zip(syms, combo))
-            ok = True
-            for b in live:
-                try:
-                    if not R.evaluate(b, I):
-                        ok = False
-                        break
-                except R.Unconstrained:
-                    ok = False
-                    break
-            if ok:
-                # total model: every declared constant gets a value
-                decl = self.reader.declared()
-                for n, t in decl.items():
-                    if n not in I and t[0] != 'Fun':
-                        I[n] = self.domain(t, usyms)[0]
-                return I
-        return None
+        I = R.find_model(live, syms, doms, unconstrained_is_false=True)
+        if I is not None:
+            # total model: every declared constant gets a value
+            decl = self.reader.declared()
+            for n, t in decl.items():
+                if n not in I and t[0] != 'Fun':
+                    I[n] = self.domain(t, usyms)[0]
+        return I
 
     def handle(self, text):
         a = self.args
